@@ -128,7 +128,7 @@ def run_case(case, ctx):
     tam = R.t_params(am)
     tph = R.t_params(ph) if ph is not None else None
     bl = [["Z"] * n] * N if bases is None else bases
-    units = nh + (na if kind == "mixed" else 0)
+    units = gen.saturating_units(am, n) + gen.saturating_units(ph, n)
     orders = {"am": lib_order(st.rbm_am)}
     if kind != "positive":
         orders["ph"] = lib_order(st.rbm_ph)
